@@ -135,7 +135,10 @@ func zzvCheckStep(fail func(sig, format string, args ...any), cmd string, before
 				fail("mode-command-touched-other", "%s: %s", cmd, d)
 			}
 		}
-		tok, _, _ := strings.Cut(strings.TrimSpace(modeBefore), " ")
+		tok, date, dated := strings.Cut(strings.TrimSpace(modeBefore), " ")
+		if _, err := time.Parse("2006-01-02", strings.TrimSpace(date)); dated && err != nil && tok == "on" {
+			tok = "local" // "on" since an unreadable date is not "on": the mode is the default, local
+		}
 		if _, had := before["mode"]; !had {
 			tok = "local" // without a mode file the mode is the default, local
 		}
@@ -167,7 +170,7 @@ func TestVerifC19(t *testing.T) {
 	res := vrep.New("C19", p)
 	defer res.Guard()
 	base, _ := vrep.Scratch("c19")
-	res.Rule = "E3: every subset of size <= 2 (thorough 3) of a 21-name pool (data files, near misses, weekends, token, lock, sub-directories and symbolic links named like data files) in local/ x every subset of size <= 1 (2) in upload/, with fixed near-miss files in the root and debug/, then clean; E2: every command sequence of length <= 3 over {on, local, off, clean, env, library SetMode(on), SetMode(bogus)} from 6 mode-file states; conformance: depth-1 cases replayed through the built gotelemetry binary; classes = (files removed, mode transitions)"
+	res.Rule = "E3: every subset of size <= 2 (thorough 3) of a 21-name pool (data files, near misses, weekends, token, lock, sub-directories and symbolic links named like data files) in local/ x every subset of size <= 1 (2) in upload/, with fixed near-miss files in the root and debug/, then clean; E2: every command sequence of length <= 3 over {on, local, off, clean, env, library SetMode(on), SetMode(bogus)} from 8 mode-file states (incl. dates that cannot be read); conformance: depth-1 cases replayed through the built gotelemetry binary; classes = (files removed, mode transitions)"
 	res.Assumptions = []string{"the date is today's (UTC) at the time of the call"}
 	subsets := func(max int) [][]string {
 		var out [][]string
@@ -253,7 +256,7 @@ func TestVerifC19(t *testing.T) {
 	}
 	// E2: command sequences.
 	cmds := []string{"on", "local", "off", "clean", "env", "lib-on", "lib-bogus"}
-	modes := []string{"<absent>", "on 2024-01-01", "off 2024-01-01", "local", "garbage", "on"}
+	modes := []string{"<absent>", "on 2024-01-01", "off 2024-01-01", "local", "garbage", "on", "on 2024-13-45", "off 2024-13-45"}
 	var seqs [][]string
 	var gen func(cur []string)
 	gen = func(cur []string) {
